@@ -499,6 +499,15 @@ def check(ctx):
     r4.require_floor(2, "check/record pairs")
     rules.append(r4)
 
+    # ---------------------------------------------------------------- D5: the record on disk is the record that was serialised
+    r5 = Rule("C14-D5-record-replaced-whole", "D5",
+              "the cache record (and every generated file) is written by whole-file replacement (rule shared with C01-D5 and C17-D2)",
+              "a record written over a longer old one without truncation does not parse any more: every later unchanged run regenerates")
+    from rulelib import check_whole_file_writes
+    check_whole_file_writes(P, r5, reach, what="cache record / generated file")
+    r5.require_floor(2, "write sites")
+    rules.append(r5)
+
     return finish(
         PROP, ctx, rules,
         "UNORD over the digest functions and the discovery path, serde-carrier type inspection, cache-hit control regions "
